@@ -182,6 +182,88 @@ int stepsMain(void)
 	return 0;
 }
 
+/* ------------------------------------------------------------------ msgs (C10 / C01): message-level reuse of ONE state
+   command: msgs b=wbl|sde|fmt klen=K reloc=0|1 script=<tok>.<tok>...   tok = <op><n>[<iv>]
+     op: E StepE, D StepD, T StepD2 (wbl), R StepR (wbl);  n: octets (wbl, sde) / word length (fmt: 10 -> mod 10,
+     21 -> mod 58, 17 -> mod 65536);  iv: a | b (two fixed synchro values), n (null pointer, fmt only).
+   One Start, then the calls in order on the same state (relocated before every call if reloc=1), every message
+   in a fresh exact-size buffer.  One line per call in the format of the one-shot record lines, so that the
+   reference semantics judges each call by its own arguments alone (wblR carries the ordinal of the StepR call). */
+static int runMsgs(const char* b, size_t klen, const char* script, int reloc)
+{
+	octet* key = rnd(klen); octet ivs[2][16]; octet zero[16];
+	int isWbl = strcmp(b, "wbl") == 0, isSde = strcmp(b, "sde") == 0, isFmt = strcmp(b, "fmt") == 0;
+	const char* p = script; size_t keep = 0; void* st = 0; int idx = 0, nR = 0; u32 mod = 0; size_t fcount = 0;
+	if (!isWbl && !isSde && !isFmt) return 3;
+	vxRandBuf(ivs, sizeof ivs); memset(zero, 0, 16);
+	while (*p)
+	{
+		char op = *p++; size_t n = 0; char ivc = 0; const octet* iv = 0; const octet* iveff = zero;
+		while (*p >= '0' && *p <= '9') n = n * 10 + (size_t)(*p++ - '0');
+		if (*p && *p != '.') ivc = *p++;
+		if (*p == '.') ++p;
+		if (ivc == 'a') iv = iveff = ivs[0]; else if (ivc == 'b') iv = iveff = ivs[1];
+		if (!st)
+		{	/* the one Start of the history */
+			if (isFmt) { fcount = n; mod = n == 10 ? 10 : n == 21 ? 58 : 65536; keep = beltFMT_keep(mod, fcount); }
+			else keep = isWbl ? beltWBL_keep() : beltSDE_keep();
+			st = malloc(keep); memset(st, 0xC3, keep);
+			if (isFmt) beltFMTStart(st, mod, fcount, key, klen); else if (isWbl) beltWBLStart(st, key, klen); else beltSDEStart(st, key, klen);
+		}
+		if (reloc) { void* st2 = malloc(keep); memcpy(st2, st, keep); memset(st, 0x5A, keep); free(st); st = st2; }
+		++idx;
+		if (isFmt)
+		{
+			u16* buf = (u16*)malloc(2 * fcount); long long* a = (long long*)malloc(sizeof(long long) * fcount); size_t i;
+			if (n != fcount) return 2;
+			for (i = 0; i < fcount; ++i) buf[i] = (u16)(vxRand64() % mod);
+			jBegin(); jStr("op", op == 'E' ? "fmtE" : "fmtD"); jStr("cls", "msgs"); jStr("b", b); jStr("script", script); jInt("idx", idx); jInt("reloc", reloc);
+			jInt("mod", mod); jOct("key", key, klen); jOct("iv", iveff, 16);
+			for (i = 0; i < fcount; ++i) a[i] = buf[i]; jIntArr("in", a, fcount);
+			if (op == 'E') beltFMTStepE(buf, iv, st); else beltFMTStepD(buf, iv, st);
+			for (i = 0; i < fcount; ++i) a[i] = buf[i]; jIntArr("out", a, fcount);
+			jInt("rc", 0); jEnd(); free(buf); free(a);
+		}
+		else
+		{
+			octet* buf = rnd(n); const char* name;
+			if (n < 32) return 2;
+			name = isSde ? (op == 'E' ? "sdeE" : "sdeD") : op == 'E' ? "wblE" : op == 'R' ? "wblR" : "wblD";
+			jBegin(); jStr("op", name); jStr("cls", "msgs"); jStr("b", b); jStr("script", script); jInt("idx", idx); jInt("reloc", reloc);
+			jOct("key", key, klen); if (isSde) jOct("iv", iveff, 16); jOct("in", buf, n);
+			if (isSde) { if (op == 'E') beltSDEStepE(buf, n, iv, st); else beltSDEStepD(buf, n, iv, st); }
+			else if (op == 'E') beltWBLStepE(buf, n, st);
+			else if (op == 'D') beltWBLStepD(buf, n, st);
+			else if (op == 'R') { jInt("k", nR); ++nR; beltWBLStepR(buf, n, st); }
+			else
+			{	/* StepD2: the message split into [n - 16]buf1 || [16]buf2, each exact size */
+				octet* b1 = (octet*)malloc(n - 16); octet* b2 = (octet*)malloc(16);
+				memcpy(b1, buf, n - 16); memcpy(b2, buf + n - 16, 16);
+				beltWBLStepD2(b1, b2, n, st);
+				memcpy(buf, b1, n - 16); memcpy(buf + n - 16, b2, 16); free(b1); free(b2);
+			}
+			jOct("out", buf, n); jInt("rc", 0); jEnd(); free(buf);
+		}
+	}
+	free(key); free(st);
+	return 0;
+}
+
+int msgsMain(void)
+{
+	static char line[1 << 16]; vx_cmd c;
+	while (fgets(line, sizeof line, stdin))
+	{
+		const char* bn; const char* script; int rc;
+		if (!vxParse(&c, line)) continue;
+		bn = vxArg(&c, "b"); script = vxArg(&c, "script");
+		if (!bn || !script) continue;
+		rc = runMsgs(bn, (size_t)vxInt(&c, "klen", 32), script, (int)vxInt(&c, "reloc", 0));
+		if (rc) { fprintf(stderr, "msgs: bad command (%d): b=%s script=%s\n", rc, bn, script); return rc; }
+	}
+	return 0;
+}
+
 /* ------------------------------------------------------------------ overlap (C11)
    command: overlap f=<op> klen=K len=N doff=D [kpos=P] [ipos=P] [hpos=P] [tpos=P]
    An arena holds src at offset BASE and dest at BASE+doff.  kpos/ipos/hpos >= 0 place the
